@@ -82,7 +82,11 @@ func ldsNeedsPush(proxy *model.Proxy, req *model.PushRequest) bool {
 	// Optimization: Routers don't need LDS updates for headless endpoint changes.
 	// However, if ServiceUpdate is also present, the service definition changed
 	// (ports, labels, etc.) and we need to push LDS.
-	headlessOnly := proxy.Type == model.Router && req.Reason.Has(model.HeadlessEndpointUpdate) && !req.Reason.Has(model.ServiceUpdate)
+	// Requests are merged while debouncing and queueing, so the optimization is only valid when every
+	// merged trigger was a headless endpoint update. Any other reason (ServiceUpdate, or an EndpointUpdate
+	// full push for a new service or service account, which also carries a ServiceEntry key) means a
+	// ServiceEntry key may stand for a real service change.
+	headlessOnly := proxy.Type == model.Router && req.Reason.Has(model.HeadlessEndpointUpdate) && len(req.Reason) == 1
 	sawServiceEntry := false
 
 	for config := range req.ConfigsUpdated {
